@@ -291,6 +291,8 @@ pub struct Cfg {
     /// nested events may also come from the subscription that is in the middle of a send
     /// (subject-like sources: the sink's handler makes the very source it listens to emit or end)
     pub self_reentrancy: bool,
+    /// the probe is a pure listener that does not keep the talkback it is greeted with
+    pub drop_talkback: bool,
     /// C15 only: the sink may keep pulling after (and from inside the handler of) the completion
     pub pull_after_end: bool,
     /// puppet may fail (emit Error)
@@ -324,6 +326,7 @@ impl Default for Cfg {
             cross_act: false,
             nested_events: false,
             pull_after_end: false,
+            drop_talkback: false,
             self_reentrancy: false,
             puppet_err: true,
             spawn_fail: false,
